@@ -217,6 +217,201 @@ fn migration_leg(acc: &mut Acc, rounds: usize) {
     let _ = worker.join();
 }
 
+thread_local! {
+    static CROWD_EVAL: std::cell::Cell<usize> = const { std::cell::Cell::new(usize::MAX) };
+}
+
+/// N OS threads, each owning one evaluation of the shared ruleset and polling it only when the
+/// coordinator says so (strictly serialised, so the schedule is the coordinator's and nothing
+/// else): all N evaluations are in flight at once, their arguments overlap, every call suspends
+/// once.  Schedules: round-robin forwards / backwards, and for chosen v: all polled twice, v
+/// driven to completion, then the rest.  Oracle: outcomes and per-evaluation call log of the
+/// evaluation run alone.
+fn thread_crowd_leg(acc: &mut Acc, n: usize) {
+    use super::probe::*;
+    use crate::engine::exec::{poll_once, WakeCount};
+    use crate::spec::eval::{observe, Obs};
+    use crate::spec::rv::RV;
+    use reval::prelude::*;
+    use std::collections::BTreeMap;
+    use std::future::Future;
+    use std::pin::Pin;
+    use std::sync::{mpsc, Arc, Mutex};
+    use std::task::Poll;
+    type Outs = Vec<(String, Obs)>;
+    type Fut = Pin<Box<dyn Future<Output = Outs> + Send + 'static>>;
+    enum Cmd {
+        New(Arc<RuleSet>, Value),
+        Poll,
+        Quit,
+    }
+    let log: Arc<Mutex<Vec<(usize, String)>>> = Arc::new(Mutex::new(Vec::new()));
+    let l2 = log.clone();
+    let h: Handler = Arc::new(move |name, p| {
+        let who = CROWD_EVAL.with(|c| c.get());
+        l2.lock().unwrap().push((who, format!("{name}({})", RV::from_value(&p).show())));
+        (Ok(Value::Vec(vec![Value::String(name.to_string()), p])), 1)
+    });
+    // a fresh ruleset per schedule: whatever a ruleset counts or pools starts from zero each time
+    let build = || -> Arc<RuleSet> {
+        let mut b = ruleset();
+        for (i, t) in ["c(id)", "c(other)", "[c(id), n(id)]", "c(third)", "c(id)"].iter().enumerate() {
+            b = b.with_rule(Rule::new(format!("r{i}"), BTreeMap::new(), Expr::parse(t).unwrap())).unwrap();
+        }
+        Arc::new(b.with_function(probe("c", true, &h)).unwrap().with_function(probe("n", false, &h)).unwrap().build())
+    };
+    let rs = build();
+    let facts: Vec<Value> = (0..n)
+        .map(|i| Value::Map([("id".to_string(), Value::Int(i as i128)), ("other".to_string(), Value::Int(((i + 1) % n) as i128)), ("third".to_string(), Value::Int(((i + n / 2) % n) as i128))].into_iter().collect()))
+        .collect();
+    let mk = |rs: &Arc<RuleSet>, facts: &Value| -> Fut {
+        let (rs, facts) = (rs.clone(), facts.clone());
+        Box::pin(async move {
+            match rs.evaluate_value(&facts).await {
+                Ok(v) => v.into_iter().map(|o| (o.rule.name().to_string(), observe(Ok(o.value)))).collect(),
+                Err(e) => vec![("whole-call".to_string(), Obs::Panic(e.to_string()))],
+            }
+        })
+    };
+    // baselines: each evaluation alone (on this thread)
+    let mut bases: Vec<(Outs, Vec<String>)> = Vec::new();
+    for (t, f) in facts.iter().enumerate() {
+        CROWD_EVAL.with(|c| c.set(t));
+        let o = crate::engine::exec::block_on(mk(&rs, f)).unwrap_or_default();
+        let l: Vec<String> = std::mem::take(&mut *log.lock().unwrap()).into_iter().map(|x| x.1).collect();
+        bases.push((o, l));
+    }
+    // workers
+    let mut to_w: Vec<mpsc::Sender<Cmd>> = Vec::new();
+    let mut from_w: Vec<mpsc::Receiver<Option<Outs>>> = Vec::new();
+    let mut handles = Vec::new();
+    for t in 0..n {
+        let (tx, rx) = mpsc::channel::<Cmd>();
+        let (rtx, rrx) = mpsc::channel::<Option<Outs>>();
+        handles.push(std::thread::spawn(move || {
+            CROWD_EVAL.with(|c| c.set(t));
+            let wc = Arc::new(WakeCount::default());
+            let mut fut: Option<Fut> = None;
+            while let Ok(cmd) = rx.recv() {
+                match cmd {
+                    Cmd::Quit => break,
+                    Cmd::New(rs, f) => {
+                        let facts = f;
+                        fut = Some(Box::pin(async move {
+                            match rs.evaluate_value(&facts).await {
+                                Ok(v) => v.into_iter().map(|o| (o.rule.name().to_string(), observe(Ok(o.value)))).collect(),
+                                Err(e) => vec![("whole-call".to_string(), Obs::Panic(e.to_string()))],
+                            }
+                        }));
+                        let _ = rtx.send(None);
+                    }
+                    Cmd::Poll => {
+                        let r = match fut.as_mut() {
+                            None => None,
+                            Some(f) => match std::panic::catch_unwind(std::panic::AssertUnwindSafe(|| poll_once(f.as_mut(), &wc))) {
+                                Ok(Poll::Ready(o)) => Some(o),
+                                Ok(Poll::Pending) => None,
+                                Err(_) => Some(vec![("whole-call".to_string(), Obs::Panic("panicked while polled".into()))]),
+                            },
+                        };
+                        if r.is_some() {
+                            fut = None;
+                        }
+                        let _ = rtx.send(r);
+                    }
+                }
+            }
+        }));
+        to_w.push(tx);
+        from_w.push(rrx);
+    }
+    let victims: Vec<usize> = if n <= 33 { (0..n).collect() } else { vec![0, 1, 2, 9, 10, 11, n / 2, n - 2, n - 1] };
+    let mut schedules: Vec<(String, Option<usize>, bool)> = vec![("forward".into(), None, false), ("reverse".into(), None, true)];
+    schedules.extend(victims.iter().map(|v| (format!("finish-{v}-early"), Some(*v), false)));
+    let schedules: Vec<(String, Option<usize>, bool, bool)> = schedules.iter().flat_map(|(l, v, r)| [(format!("{l}/fresh-ruleset"), *v, *r, true), (format!("{l}/used-ruleset"), *v, *r, false)]).collect();
+    'sched: for (label, victim, reverse, fresh) in schedules {
+        log.lock().unwrap().clear();
+        let mut results: Vec<Option<Outs>> = (0..n).map(|_| None).collect();
+        // on a ruleset that has never evaluated anything, and on the one that ran the baselines
+        let rs_s = if fresh { build() } else { rs.clone() };
+        for t in 0..n {
+            if to_w[t].send(Cmd::New(rs_s.clone(), facts[t].clone())).is_err() || from_w[t].recv().is_err() {
+                acc.machinery("crowd worker gone");
+                break 'sched;
+            }
+        }
+        let mut order: Vec<usize> = (0..n).collect();
+        if reverse {
+            order.reverse();
+        }
+        let mut died = false;
+        let mut poll = |t: usize, results: &mut Vec<Option<Outs>>, died: &mut bool| {
+            if results[t].is_some() || *died {
+                return;
+            }
+            if to_w[t].send(Cmd::Poll).is_err() {
+                *died = true;
+                return;
+            }
+            match from_w[t].recv() {
+                Ok(Some(o)) => results[t] = Some(o),
+                Ok(None) => {}
+                Err(_) => *died = true,
+            }
+        };
+        if let Some(v) = victim {
+            for _ in 0..2 {
+                for &t in &order {
+                    poll(t, &mut results, &mut died);
+                }
+            }
+            for _ in 0..64 {
+                poll(v, &mut results, &mut died);
+            }
+        }
+        for _ in 0..64 {
+            if results.iter().all(|r| r.is_some()) {
+                break;
+            }
+            for &t in &order {
+                poll(t, &mut results, &mut died);
+            }
+        }
+        acc.count("executions", n as u64);
+        acc.count("thread_crowd_schedules", 1);
+        if died {
+            acc.violation(Violation { sig: "thread-crowd/worker-died".into(), what: format!("{n} evaluations on {n} threads, schedule {label}: a worker thread died"), case: json!({"kind": "thread-crowd", "n": n, "schedule": label}), size: n });
+            break;
+        }
+        let all = std::mem::take(&mut *log.lock().unwrap());
+        for t in 0..n {
+            let mine: Vec<String> = all.iter().filter(|l| l.0 == t).map(|l| l.1.clone()).collect();
+            let ok_out = results[t].as_ref() == Some(&bases[t].0);
+            if !ok_out || mine != bases[t].1 {
+                acc.violation(Violation {
+                    sig: format!("thread-crowd/{}", if ok_out { "calls" } else { "outcome" }),
+                    what: format!(
+                        "{n} evaluations of one ruleset in flight on {n} threads, schedule {label}: evaluation {t} returned {:?} with calls {mine:?}; alone it returns {:?} with calls {:?}",
+                        results[t].as_ref().map(|o| o.iter().map(|x| x.1.show()).collect::<Vec<_>>()),
+                        bases[t].0.iter().map(|x| x.1.show()).collect::<Vec<_>>(),
+                        bases[t].1
+                    ),
+                    case: json!({"kind": "thread-crowd", "n": n, "schedule": label}),
+                    size: n * 1000 + t,
+                });
+                break 'sched;
+            }
+        }
+        acc.outcome("thread-crowd:completed");
+    }
+    for tx in &to_w {
+        let _ = tx.send(Cmd::Quit);
+    }
+    for h in handles {
+        let _ = h.join();
+    }
+}
+
 fn stress_facts(round: usize, t: usize) -> reval::prelude::Value {
     use reval::prelude::Value;
     // `other` (and ts2/num2) are the same never-seen-before values for all threads of a round,
@@ -396,6 +591,11 @@ pub fn run(tier: Tier) -> i32 {
         acc.machinery("no loom schedule explored");
     }
     migration_leg(&mut acc, tier.pick(20, 200));
+    let crowd: Vec<usize> = tier.pick(vec![17, 33], vec![17, 33, 65, 130]);
+    for &n in &crowd {
+        thread_crowd_leg(&mut acc, n);
+    }
+    rep.bound("thread_crowd_sizes", crowd);
     stress_leg(&mut acc, tier.pick(300, 3000));
     acc.sample("scenario", 1, || json!({"two": "2 threads, rules [c(id), n(id), c(id), c(other), bad(id)], inputs {id:1,other:2} / {id:2,other:1}, every user-function call suspends once", "handoff": "thread 0 polls an evaluation once, hands the future to thread 1 which finishes it while thread 0 runs another evaluation"}));
     let hits = scan_repo();
@@ -411,7 +611,7 @@ pub fn run(tier: Tier) -> i32 {
     rep.states = schedules;
     rep.transitions = sync_ops.max(schedules);
     rep.traces = schedules;
-    rep.rule = "loom (DPOR, preemption-bounded) over 2-3 model threads each running block_on(evaluate_value) on one Arc<RuleSet> with distinct inputs; user functions take a loom mutex, bump loom atomics and suspend once, which gives loom its scheduling points exactly where evaluations can meet; plus a hand-off scenario in which a suspended evaluation is finished on another thread, and a migration leg on real OS threads (strictly alternating, deterministic: an evaluation is polled k times on thread A and finished on thread B, N times in a row for every suspension point k, then A evaluates afresh; this is where per-thread state inside reval would show, which loom cannot see because its model threads share one OS thread); oracle: every evaluation's outcomes equal the sequential run and the invocation log is a permutation of the sequential logs; states = schedules explored, transitions = synchronisation operations executed".into();
+    rep.rule = "loom (DPOR, preemption-bounded) over 2-3 model threads each running block_on(evaluate_value) on one Arc<RuleSet> with distinct inputs; user functions take a loom mutex, bump loom atomics and suspend once, which gives loom its scheduling points exactly where evaluations can meet; plus a hand-off scenario in which a suspended evaluation is finished on another thread, and a migration leg on real OS threads (strictly alternating, deterministic: an evaluation is polled k times on thread A and finished on thread B, N times in a row for every suspension point k, then A evaluates afresh; this is where per-thread state inside reval would show, which loom cannot see because its model threads share one OS thread), and a thread-crowd leg (17..130 OS threads each owning one in-flight evaluation of the shared ruleset, polled one at a time by a coordinator: round-robin both ways and one evaluation finished early, overlapping arguments, per-evaluation call logs); oracle: every evaluation's outcomes equal the sequential run and the invocation log is a permutation of the sequential logs; states = schedules explored, transitions = synchronisation operations executed".into();
     rep.assume("type-level half (Send/Sync of the public types and evaluation futures) is decided by rustc when mc/c18gate is compiled, not by exploration");
     rep.assume("the stress leg (8 OS threads, barrier-released rounds) samples schedules and is labelled non-deciding: a mismatch it reports is real, its silence is not evidence");
     rep.assume("loom only sees loom types: reval has no synchronisation primitive of its own (closed_world_scan lists what a grep for such primitives finds in /repo/src); a std lock added to reval would be invisible to the scheduler");
@@ -450,6 +650,23 @@ pub fn replay(case: &serde_json::Value) -> i32 {
                     println!("{m}");
                     2
                 }
+            }
+        }
+        Some(k @ ("migration" | "thread-crowd")) => {
+            let mut acc = Acc::new();
+            if k == "migration" {
+                migration_leg(&mut acc, 200);
+            } else {
+                thread_crowd_leg(&mut acc, case.get("n").and_then(|n| n.as_u64()).unwrap_or(17) as usize);
+            }
+            if acc.violations.is_empty() {
+                println!("verdict: holds");
+                0
+            } else {
+                for v in acc.violations.values() {
+                    println!("verdict: VIOLATED — {}", v.what);
+                }
+                1
             }
         }
         _ => 2,
